@@ -65,8 +65,27 @@ def main() -> int:
             for seed in args.seeds.split(","):
                 env = dict(os.environ, VMC_REPO=scratch, VERIF_SEED=seed, VMC_EVIDENCE_DIR=os.path.join(scratch, "evidence"),
                            VMC_REPLAY_DIR=os.path.join(scratch, "replays"))
-                r = subprocess.run([sys.executable, "-m", "vmc.run", c, "--tier", args.tier], cwd="/verif",
-                                   env=env, capture_output=True, text=True)
+                env.setdefault("VMC_PROGRAM_BUDGET_S", "60")  # mutants may blow up the schedule space
+                env.setdefault("VMC_EXEC_CAP_S", "15")
+                proc = subprocess.Popen([sys.executable, "-m", "vmc.run", c, "--tier", args.tier], cwd="/verif",
+                                        env=env, stdout=subprocess.PIPE, stderr=subprocess.PIPE, text=True,
+                                        start_new_session=True)
+                try:
+                    out, err = proc.communicate(timeout=float(os.environ.get("VMC_MUTATE_TIMEOUT_S", "600")))
+                except subprocess.TimeoutExpired:
+                    os.killpg(proc.pid, 9)
+                    out, err = proc.communicate()
+                    out += "\nHARNESS-ERROR mutate timeout"
+                except BaseException:
+                    os.killpg(proc.pid, 9)
+                    raise
+
+                class R:  # noqa: D101
+                    returncode = proc.returncode
+                    stdout = out
+                    stderr = err
+
+                r = R()
                 lines = [ln for ln in r.stdout.splitlines() if ln.startswith(("VIOLATION", "  clause", "KNOWN", "HARNESS"))]
                 detected = r.returncode == 1 and any(ln.startswith("VIOLATION") for ln in lines)
                 print(f"[{spec.get('id')}] check={c} seed={seed} exit={r.returncode} detected={detected}")
